@@ -180,31 +180,62 @@ impl Live {
     }
     /// same, but everything the upper layer received since the transport was created counts (nothing is drained first)
     async fn inject_keep(&mut self, victim_client: bool, ds: &[Vec<u8>], foreign: bool) -> (Vec<Vec<u8>>, &'static str, bool) {
+        // paced: at most 24 datagrams between two marker round-trips, so that the victim's socket buffer (every
+        // small datagram costs a whole skb) never overflows however long the injected history is
+        let mut got = vec![];
+        let mut arrived = true;
+        let mut batches: Vec<&[Vec<u8>]> = ds.chunks(24).collect();
+        if batches.is_empty() { batches.push(&[]); }
+        for batch in batches {
+            let (g, a) = self.inject_batch(victim_client, batch, foreign).await;
+            got.extend(g);
+            arrived = a;
+            if !a { break; }
+        }
+        (got, st_name(&self.dtls(victim_client).get_state()), arrived)
+    }
+    async fn inject_batch(&mut self, victim_client: bool, ds: &[Vec<u8>], foreign: bool) -> (Vec<Vec<u8>>, bool) {
         let dir = Live::dir_from(!victim_client);
         let vaddr = self.addr(victim_client);
         for d in ds {
             if foreign { let _ = self.foreign.send_to(d, vaddr).await; } else { self.pair.proxy.as_ref().unwrap().inject(dir, d.clone()); }
         }
-        self.marker += 1;
-        let mpt = format!("#MARKER#{:08}", self.marker).into_bytes();
-        let (k, iv) = self.keys.read(victim_client);
-        let m = encode_rec(&seal_rec(k, iv, 23, 1, 0x0000_F000_0000_0000u64 >> 16 | self.marker, None, 0, &mpt));
         if foreign { tokio::time::sleep(Duration::from_micros(300)).await; }
-        self.pair.proxy.as_ref().unwrap().inject(dir, m);
         let mut got = vec![];
-        let mut arrived = false;
-        let deadline = tokio::time::Instant::now() + Duration::from_millis(400);
-        loop {
-            match tokio::time::timeout_at(deadline, self.rx[side(victim_client)].recv()).await {
-                Ok(Some(b)) => { if b[..] == mpt[..] { arrived = true; break; } got.push(b.to_vec()); }
-                _ => break,
+        // the marker is a datagram too: if it does not come back, send a fresh one (up to 4) before concluding that
+        // the receiver no longer processes anything
+        for attempt in 0..4 {
+            self.marker += 1;
+            let mpt = format!("#MARKER#{:08}", self.marker).into_bytes();
+            let (k, iv) = self.keys.read(victim_client);
+            let m = encode_rec(&seal_rec(k, iv, 23, 1, 0x0000_F000_0000_0000u64 >> 16 | self.marker, None, 0, &mpt));
+            self.pair.proxy.as_ref().unwrap().inject(dir, m);
+            let deadline = tokio::time::Instant::now() + Duration::from_millis(if attempt == 0 { 400 } else { 800 });
+            loop {
+                match tokio::time::timeout_at(deadline, self.rx[side(victim_client)].recv()).await {
+                    Ok(Some(b)) => {
+                        if b[..] == mpt[..] { return (got, true); }
+                        if b.starts_with(b"#MARKER#") { continue; } // a late earlier marker
+                        got.push(b.to_vec());
+                    }
+                    _ => break,
+                }
             }
+            if matches!(self.dtls(victim_client).get_state(), DtlsState::Failed) { break; }
         }
-        (got, st_name(&self.dtls(victim_client).get_state()), arrived)
+        (got, false)
     }
 }
 
 impl Live {
+    /// after a capture: the sender's next sequence number = max(previous + records expected, highest one captured),
+    /// robust against datagrams lost between sender and proxy
+    fn resync_sent(&mut self, client: bool, dgrams: &[Vec<u8>], expected: usize) {
+        // (the tail of a burst may be what was lost, so the highest captured number alone can under-count)
+        let max = dgrams.iter().flat_map(|d| parse_records(d)).filter(|r| r.epoch == 1).map(|r| r.seq).max().unwrap_or(0);
+        let by_count = self.sent[side(client)] + expected.max(dgrams.len()) as u64;
+        self.sent[side(client)] = by_count.max(max);
+    }
     /// records the (epoch, seq) of a captured record; Some(msg) if that nonce was already used under this key
     fn note_nonce(&mut self, client: bool, r: &Rec) -> Option<String> {
         match self.seen[side(client)].insert((r.epoch, r.seq), r.ct) {
@@ -215,7 +246,7 @@ impl Live {
 }
 
 // ------------------------------------------------------------------------------------------ cases
-struct Stats { kinds: BTreeMap<String, usize>, pairs: usize }
+struct Stats { kinds: BTreeMap<String, usize>, pairs: usize, retried: usize }
 
 fn push(out: &mut Out, st: &mut Stats, kind: &str, term: String, desc: serde_json::Value, oracle_fail: Option<String>, nontrivial: bool, key: String) {
     *st.kinds.entry(kind.to_string()).or_insert(0) += 1;
@@ -258,13 +289,25 @@ fn encode_case(out: &mut Out, st: &mut Stats, ct: u8, maj: u8, min: u8, epoch: u
 
 // ---- one send() by one caller
 async fn tx_case(live: &mut Live, out: &mut Out, st: &mut Stats, kind: &str, client: bool, data: Vec<u8>, as_pat: Option<(u64, usize)>) {
+    let n0 = out.cases.len();
+    tx_case_once(live, out, st, kind, client, data.clone(), as_pat).await;
+    if out.cases[n0..].iter().any(|c| c.oracle_fail.is_some()) {
+        // retry once in isolation before it counts (the capture depends on UDP not dropping)
+        out.cases.truncate(n0);
+        st.retried += 1;
+        tokio::time::sleep(Duration::from_millis(200)).await;
+        live.drain(!client);
+        tx_case_once(live, out, st, kind, client, data, as_pat).await;
+    }
+}
+async fn tx_case_once(live: &mut Live, out: &mut Out, st: &mut Stats, kind: &str, client: bool, data: Vec<u8>, as_pat: Option<(u64, usize)>) {
     let dir = Live::dir_from(client);
     let start = live.log_len();
     let seq0 = 1 + live.sent[side(client)];
     let n = (data.len() + PATH_LIMIT - 1) / PATH_LIMIT; // independent expectation: fewest records within the path limit
     let res = live.dtls(client).send(Bytes::from(data.clone())).await;
-    let dgrams = live.wait_dgrams(start, dir, n, Duration::from_millis(if n == 0 { 25 } else { 800 })).await;
-    live.sent[side(client)] += dgrams.len() as u64;
+    let dgrams = live.wait_dgrams(start, dir, n, Duration::from_millis(if n == 0 { 25 } else { 2500 })).await;
+    live.resync_sent(client, &dgrams, n);
     let (k, iv) = { let (a, b) = live.keys.write(client); (a.to_vec(), b.to_vec()) };
     let mut fail: Option<String> = None;
     let mut entries = vec![];
@@ -313,7 +356,7 @@ async fn tx_big_case(live: &mut Live, out: &mut Out, st: &mut Stats, client: boo
         if c == last { quiet += 1; } else { quiet = 0; last = c; }
     }
     let dgrams = live.log_from(start, dir);
-    live.sent[side(client)] += n as u64;
+    live.resync_sent(client, &dgrams, n);
     let (k, iv) = { let (a, b) = live.keys.write(client); (a.to_vec(), b.to_vec()) };
     let mut fail: Option<String> = None;
     if res.is_err() { fail = Some(format!("send() of {} bytes failed: {:?}", len, res.err())); }
@@ -340,6 +383,17 @@ async fn tx_big_case(live: &mut Live, out: &mut Out, st: &mut Stats, client: boo
 struct TaskSpec { calls: Vec<(u64, usize)> } // (pattern id, length)
 
 async fn conc_case(live: &mut Live, out: &mut Out, st: &mut Stats, kind: &str, client: bool, tasks: Vec<TaskSpec>, with_close: bool) {
+    let n0 = out.cases.len();
+    conc_case_once(live, out, st, kind, client, tasks.clone(), with_close).await;
+    if out.cases[n0..].iter().any(|c| c.oracle_fail.is_some()) {
+        out.cases.truncate(n0);
+        st.retried += 1;
+        tokio::time::sleep(Duration::from_millis(200)).await;
+        if with_close { *live = Live::connect().await; st.pairs += 1; } // the runner of the old pair is gone
+        conc_case_once(live, out, st, kind, client, tasks, with_close).await;
+    }
+}
+async fn conc_case_once(live: &mut Live, out: &mut Out, st: &mut Stats, kind: &str, client: bool, tasks: Vec<TaskSpec>, with_close: bool) {
     let dir = Live::dir_from(client);
     let start = live.log_len();
     let seq0 = 1 + live.sent[side(client)];
@@ -368,8 +422,8 @@ async fn conc_case(live: &mut Live, out: &mut Out, st: &mut Stats, kind: &str, c
     }
     let mut all_ok = true;
     for h in hs { all_ok &= h.await.unwrap_or(false); }
-    let dgrams = live.wait_dgrams(start, dir, total, Duration::from_millis(1500)).await;
-    live.sent[side(client)] += dgrams.len() as u64;
+    let dgrams = live.wait_dgrams(start, dir, total, Duration::from_millis(3000)).await;
+    live.resync_sent(client, &dgrams, total);
     let (k, iv) = { let (a, b) = live.keys.write(client); (a.to_vec(), b.to_vec()) };
     let mut fail: Option<String> = None;
     if !all_ok { fail = Some("a send() returned an error".into()); }
@@ -421,16 +475,86 @@ async fn conc_case(live: &mut Live, out: &mut Out, st: &mut Stats, kind: &str, c
 }
 
 // ---- receive side
-struct RxOutcome { dead: bool, changed: bool }
+struct RxOutcome { dead: bool, changed: bool, suspect: bool }
+/// "retry once in isolation before it counts": a failed or suspicious (fewer deliveries than authentic records:
+/// possibly a datagram lost by the loopback socket under load) case is discarded and repeated once; only the
+/// repetition is reported. A real violation is deterministic and fails again.
 #[allow(clippy::too_many_arguments)]
 async fn rx_case(live: &mut Live, out: &mut Out, st: &mut Stats, kind: &str, what: &str, victim_client: bool, ds: Vec<Vec<u8>>, foreign: bool) -> RxOutcome {
-    let pre = st_name(&live.dtls(victim_client).get_state());
-    let (got, post, arrived) = live.inject(victim_client, &ds, foreign).await;
-    finish_rx(live, out, st, kind, what, victim_client, ds, foreign, pre, got, post, arrived)
+    let mut last = RxOutcome { dead: false, changed: false, suspect: false };
+    for attempt in 0..2 {
+        let n0 = out.cases.len();
+        let pre = st_name(&live.dtls(victim_client).get_state());
+        let (got, post, arrived) = live.inject(victim_client, &ds, foreign).await;
+        last = finish_rx(live, out, st, kind, what, victim_client, ds.clone(), foreign, pre, got, post, arrived, None);
+        let bad = last.suspect || out.cases[n0..].iter().any(|c| c.oracle_fail.is_some());
+        if !bad || attempt == 1 { break; }
+        out.cases.truncate(n0);
+        st.retried += 1;
+        if last.dead || last.changed { *live = Live::connect().await; st.pairs += 1; }
+        tokio::time::sleep(Duration::from_millis(150)).await;
+    }
+    last
+}
+
+// ---- a long run of unauthenticated datagrams (paced), then a genuine record delivered with retry-until-observed
+// semantics: a fresh authentic record (new sequence number, distinct payload) is sent up to 6 times; the oracle
+// requires that at least one is delivered and the state is unchanged; the model sees the run plus exactly the
+// fresh records that were observed (a datagram lost by the network never reached the implementation)
+#[allow(clippy::too_many_arguments)]
+async fn run_case(live: &mut Live, out: &mut Out, st: &mut Stats, what: &str, victim_client: bool, run: Vec<Vec<u8>>, foreign: bool) -> RxOutcome {
+    let mut last = RxOutcome { dead: false, changed: false, suspect: false };
+    for attempt in 0..2 {
+        let n0 = out.cases.len();
+        let pre = st_name(&live.dtls(victim_client).get_state());
+        live.drain(victim_client);
+        // the run is paced by time only (24 datagrams, then a pause that grows with the run length): a marker between
+        // batches would be a genuine record in the middle of the run and reset any failure counter of the receiver
+        {
+            let dir = Live::dir_from(!victim_client);
+            let vaddr = live.addr(victim_client);
+            for batch in run.chunks(24) {
+                for d in batch {
+                    if foreign { let _ = live.foreign.send_to(d, vaddr).await; } else { live.pair.proxy.as_ref().unwrap().inject(dir, d.clone()); }
+                }
+                tokio::time::sleep(Duration::from_millis(6)).await;
+            }
+            tokio::time::sleep(Duration::from_millis(10)).await;
+        }
+        let (mut got, mut post, mut arrived): (Vec<Vec<u8>>, &'static str, bool) = (live.drain(victim_client), st_name(&live.dtls(victim_client).get_state()), true);
+        let (rk, riv) = { let (a, b) = live.keys.read(victim_client); (a.to_vec(), b.to_vec()) };
+        let mut ds = run.clone();
+        let mut extra: Option<String> = None;
+        if arrived && post == pre {
+            let mut delivered_any = false;
+            for t in 0..6u64 {
+                live.marker += 1;
+                let pt = format!("genuine-after-run-{}-{}", live.marker, t).into_bytes();
+                let d = encode_rec(&seal_rec(&rk, &riv, 23, 1, 40_000 + live.marker, None, 0, &pt));
+                let (g, p2, a2) = live.inject_keep(victim_client, &[d.clone()], false).await;
+                post = p2; arrived = a2;
+                let hit = g.iter().any(|x| x == &pt);
+                if hit { ds.push(d); }
+                got.extend(g);
+                if hit { delivered_any = true; break; }
+                if !a2 || p2 != pre { break; }
+                tokio::time::sleep(Duration::from_millis(40 << t.min(3))).await;
+            }
+            if !delivered_any { extra = Some(format!("a genuine record was not delivered after a run of unauthenticated records (6 fresh records tried; state {}) [{}]", post, what)); }
+        }
+        last = finish_rx(live, out, st, "rx-run", what, victim_client, ds, foreign, pre, got, post, arrived, extra);
+        let bad = out.cases[n0..].iter().any(|c| c.oracle_fail.is_some());
+        if !bad || attempt == 1 { break; }
+        out.cases.truncate(n0);
+        st.retried += 1;
+        if last.dead || last.changed { *live = Live::connect().await; st.pairs += 1; }
+        tokio::time::sleep(Duration::from_millis(150)).await;
+    }
+    last
 }
 #[allow(clippy::too_many_arguments)]
 fn finish_rx(live: &Live, out: &mut Out, st: &mut Stats, kind: &str, what: &str, victim_client: bool, ds: Vec<Vec<u8>>, foreign: bool,
-             pre: &'static str, got: Vec<Vec<u8>>, post: &'static str, arrived: bool) -> RxOutcome {
+             pre: &'static str, got: Vec<Vec<u8>>, post: &'static str, arrived: bool, extra_fail: Option<String>) -> RxOutcome {
     let (k, iv) = live.keys.read(victim_client);
     // the harness's own authentication verdict for every record of every datagram
     let mut entries = vec![];
@@ -457,6 +581,10 @@ fn finish_rx(live: &Live, out: &mut Out, st: &mut Stats, kind: &str, what: &str,
     if post != pre && !(pre == "Connected" && post == "Closed" && auth_close) && !auth_hs {
         fail.get_or_insert(format!("CONNECTION STATE CHANGED {} -> {} by a record that does not authenticate [{}; from {}]", pre, post, what, if foreign { "foreign address" } else { "peer address" }));
     }
+    if let Some(e) = extra_fail { fail.get_or_insert(e); }
+    // fewer deliveries than authentic ApplicationData records with an unchanged state: legitimate when a bad record
+    // precedes them in the same datagram, otherwise possibly a lost datagram -- never a failure, only a reason to repeat
+    let suspect = got.len() < auth_app.len() && post == pre;
     if !arrived && post != "Failed" { fail.get_or_insert(format!("receiver stopped processing after injection (state {}) [{}]", post, what)); }
     let term = format!("CRx {} {} {} {} {} {} {}", bool_term(victim_client), live.keys.term(), st_term(pre),
         list_term(&ds.iter().map(|d| bytes_term(d)).collect::<Vec<_>>()), list_term(&entries),
@@ -465,7 +593,7 @@ fn finish_rx(live: &Live, out: &mut Out, st: &mut Stats, kind: &str, what: &str,
         "pre": pre, "post": post, "delivered": got.iter().map(|g| hex(g)).collect::<Vec<_>>()}});
     let key = format!("rx{}{}{}", victim_client, foreign, fnv(&ds.concat()).to_string() + &ds.len().to_string());
     push(out, st, kind, term, desc, fail, nrec > 0, key);
-    RxOutcome { dead: !arrived || post == "Failed", changed: post != pre }
+    RxOutcome { dead: !arrived || post == "Failed", changed: post != pre, suspect }
 }
 
 /// keep a usable (Connected, alive) pair
@@ -523,8 +651,8 @@ async fn handshaking_case(out: &mut Out, st: &mut Stats, victim_client: bool, ds
     for d in &ds { if foreign { let _ = fsock.send_to(d, vaddr).await; } else { pair.proxy.as_ref().unwrap().inject(toward, d.clone()); } }
     tokio::time::sleep(Duration::from_millis(80)).await;
     let mid = st_name(&vd.get_state());
-    let c = wait_dtls_terminal(&pair.client.dtls, Duration::from_secs(5)).await;
-    let s = wait_dtls_terminal(&pair.server.dtls, Duration::from_secs(5)).await;
+    let c = wait_dtls_terminal(&pair.client.dtls, Duration::from_secs(12)).await;
+    let s = wait_dtls_terminal(&pair.server.dtls, Duration::from_secs(12)).await;
     let both = matches!(c, DtlsState::Connected(..)) && matches!(s, DtlsState::Connected(..));
     let fin = st_name(&vd.get_state());
     if !both {
@@ -544,7 +672,7 @@ async fn handshaking_case(out: &mut Out, st: &mut Stats, victim_client: bool, ds
         push(out, st, kind, "-".into(), json!({"inject_during_handshake": what, "note": "victim was no longer handshaking", "pre": pre}), None, false, format!("hsk-late{}{}", victim_client, what));
         return;
     }
-    let o = finish_rx(&live, out, st, kind, what, victim_client, ds, foreign, "Handshaking", got, mid, arrived);
+    let o = finish_rx(&live, out, st, kind, what, victim_client, ds, foreign, "Handshaking", got, mid, arrived, None);
     let _ = o;
     if fin != "Connected" {
         push(out, st, kind, "-".into(), json!({"inject_during_handshake": what, "final": fin}), Some(format!("victim ended {} instead of Connected [{}]", fin, what)), true, format!("hsk-fin{}{}", victim_client, what));
@@ -651,7 +779,7 @@ async fn main() {
     let thorough = args.tier == "thorough";
     let mut rng = Rng::new(args.seed);
     let mut out = Out::new(&args.out);
-    let mut st = Stats { kinds: BTreeMap::new(), pairs: 0 };
+    let mut st = Stats { kinds: BTreeMap::new(), pairs: 0, retried: 0 };
     let t_start = Instant::now();
     if std::env::args().any(|a| a == "--only-probe") {
         let n = std::env::args().position(|a| a == "--race-probe").and_then(|i| std::env::args().nth(i + 1)).and_then(|v| v.parse::<usize>().ok()).unwrap_or(200);
@@ -669,7 +797,7 @@ async fn main() {
         tx_case(&mut live, &mut out, &mut st, "corpus", true, b"world".to_vec(), None).await;
         let start = live.log_len();
         live.dtls(true).close();
-        let d = live.wait_dgrams(start, Dir::AtoB, 1, Duration::from_millis(800)).await;
+        let d = live.wait_dgrams(start, Dir::AtoB, 1, Duration::from_millis(2500)).await;
         let (k, iv) = { let (a, b) = live.keys.write(true); (a.to_vec(), b.to_vec()) };
         let (k, iv) = (&k[..], &iv[..]);
         let mut fail = None;
@@ -790,11 +918,15 @@ async fn main() {
         // genuine records: two application records really sent by the peer, and the close_notify the peer would send
         let mut genuine: Vec<(String, Vec<u8>)> = vec![];
         for (name, data) in [("genuine app record (8 bytes)", rng.bytes(8)), ("genuine app record (21 bytes)", rng.bytes(21))] {
-            let start = live.log_len();
-            live.dtls(peer_client).send(Bytes::from(data)).await.unwrap();
-            let d = live.wait_dgrams(start, Live::dir_from(peer_client), 1, Duration::from_millis(800)).await;
-            live.sent[side(peer_client)] += 1;
-            genuine.push((name.to_string(), d[0].clone()));
+            let mut cap = None;
+            for _ in 0..6 { // the capture depends on UDP not dropping: send again until the proxy has seen it
+                let start = live.log_len();
+                live.dtls(peer_client).send(Bytes::from(data.clone())).await.unwrap();
+                let d = live.wait_dgrams(start, Live::dir_from(peer_client), 1, Duration::from_millis(2500)).await;
+                live.resync_sent(peer_client, &d, 1);
+                if let Some(x) = d.first() { cap = Some(x.clone()); break; }
+            }
+            genuine.push((name.to_string(), cap.expect("no genuine record could be captured at the proxy")));
         }
         tokio::time::sleep(Duration::from_millis(20)).await;
         live.drain(victim_client);
@@ -851,6 +983,28 @@ async fn main() {
                     // the same followed by a genuine record in the next datagram: the bad one must not swallow it
                     let o = rx_case(&mut live, &mut out, &mut st, "rx-length", &format!("{}: length field {} -> {}, then the genuine record in its own datagram", name, l, nl), victim_client, vec![d, g.clone()], false).await;
                     refresh(&mut live, &mut st, &o).await;
+                }
+            }
+            // (2d) long runs of consecutive unauthenticated records with no genuine record in between (a receiver that
+            // counts failures and gives up would change state), then one genuine record: state must stay Connected and
+            // the genuine record must be delivered
+            {
+                let g = genuine[0].1.clone();
+                let (wk2, wiv2) = { let (a, b) = live.keys.write(victim_client); (a.to_vec(), b.to_vec()) };
+                let runs: &[usize] = if thorough { &[1, 2, 63, 64, 65, 127, 128, 129, 300, 1000] } else { &[1, 63, 64, 65, 300] };
+                for &n in runs {
+                    for (ki, kname) in ["forged garbage records of epoch 1", "bit-flipped copies of a genuine record", "records sealed under the wrong key"].iter().enumerate() {
+                        let mut ds: Vec<Vec<u8>> = (0..n).map(|i| match ki {
+                            0 => plain(23, 1, 20_000 + i as u64, &rng.bytes(24 + i % 9)),
+                            1 => { let mut d = g.clone(); let bit = 13 * 8 + (i * 7) % ((d.len() - 13) * 8); d[bit / 8] ^= 1 << (bit % 8); d }
+                            _ => encode_rec(&seal_rec(&wk2, &wiv2, 23, 1, 30_000 + i as u64, None, 0, &rng.bytes(5))),
+                        }).collect();
+                        let foreign = (n + ki) % 2 == 0;
+                        let o = run_case(&mut live, &mut out, &mut st, &format!("{} consecutive {} with no genuine record in between, then a genuine record", n, kname), victim_client, std::mem::take(&mut ds), foreign).await;
+                        refresh(&mut live, &mut st, &o).await;
+                        if o.dead || o.changed { break; }
+                    }
+                    if live.keys.read(victim_client).0 != &rk[..] { break; }
                 }
             }
             // (3) replays of genuine application records (accepted: no anti-replay window; not a C03 matter), garbage appended
@@ -969,14 +1123,30 @@ async fn main() {
             ("forged plaintext epoch-0 first fragment of a 64 KiB message (message_seq 0..7) while Handshaking with keys", (0u16..8).map(|m| { let mut d = plain_hs(11, m, &[7u8; 32], 90 + m as u64); d[14] = 1; d }).collect()),
             ("plaintext epoch-0 Heartbeat while Handshaking with keys", vec![plain(24, 0, 54, &[1, 0, 0])]),
         ].into_iter().enumerate() {
-            handshaking_case(&mut out, &mut st, victim_client, ds, what, i == 1).await;
+            let n0 = out.cases.len();
+            handshaking_case(&mut out, &mut st, victim_client, ds.clone(), what, i == 1).await;
+            if out.cases[n0..].iter().any(|c| c.oracle_fail.is_some()) {
+                out.cases.truncate(n0); st.retried += 1;
+                tokio::time::sleep(Duration::from_millis(300)).await;
+                handshaking_case(&mut out, &mut st, victim_client, ds, what, i == 1).await;
+            }
         }
     }
 
     // ================================================================= before any key exists: epoch-0 ApplicationData
     for victim_client in [true, false] {
-        prekeys_case(&mut out, &mut st, victim_client, vec![plain(23, 0, 40, b"PLAINTEXT-BEFORE-KEYS")], "plaintext epoch-0 ApplicationData before keys", false).await;
-        prekeys_case(&mut out, &mut st, victim_client, vec![[plain(23, 0, 41, b"A"), plain(23, 0, 42, b"B")].concat()], "two plaintext epoch-0 ApplicationData records in one datagram before keys", true).await;
+        for (ds, what, foreign) in [
+            (vec![plain(23, 0, 40, b"PLAINTEXT-BEFORE-KEYS")], "plaintext epoch-0 ApplicationData before keys", false),
+            (vec![[plain(23, 0, 41, b"A"), plain(23, 0, 42, b"B")].concat()], "two plaintext epoch-0 ApplicationData records in one datagram before keys", true),
+        ] {
+            let n0 = out.cases.len();
+            prekeys_case(&mut out, &mut st, victim_client, ds.clone(), what, foreign).await;
+            if out.cases[n0..].iter().any(|c| c.oracle_fail.is_some()) {
+                out.cases.truncate(n0); st.retried += 1;
+                tokio::time::sleep(Duration::from_millis(300)).await;
+                prekeys_case(&mut out, &mut st, victim_client, ds, what, foreign).await;
+            }
+        }
     }
 
     // ================================================================= thorough: send() racing the end of the handshake
@@ -985,7 +1155,10 @@ async fn main() {
     if probe_n > 0 { race_probe(&mut out, &mut st, probe_n).await; }
 
     let wall = t_start.elapsed().as_secs_f64();
+    st.kinds.clear();
+    for c in &out.cases { *st.kinds.entry(c.kind.clone()).or_insert(0) += 1; }
     out.finish(json!({"generator": {
+        "cases_repeated_in_isolation": st.retried,
         "tier": args.tier, "seed": args.seed, "live_dtls_pairs": st.pairs, "harness_wall_s": wall, "cases_by_kind": st.kinds,
         "send_sizes": "0,1,2,MAX-1,MAX,MAX+1,2MAX-1,2MAX,2MAX+1,3MAX,3MAX+7 + random 1..64 and 1..4000",
         "concurrency": "1-8 tasks x 1-3 send() calls (sizes 1..24, one case in five with MAX-1/MAX/MAX+1/2MAX+1), every ninth case races close()",
